@@ -1,6 +1,6 @@
 import Model.GConfigCache
-/-! REGENERATED on every run by harness/cmd/extract-gconfig from /repo/gconfig/config.go (getFromCache, /repo/gconfig/config.go:75:7).
+/-! REGENERATED on every run by harness/cmd/extract-gconfig from /repo/gconfig/config.go (getFromCache, /repo/gconfig/config.go:73:7).
 Do not edit. -/
 namespace Generated.GConfigKey
-def memoKeyKind : GConfigCache.KeyKind := .typeName
+def memoKeyKind : GConfigCache.KeyKind := .pair
 end Generated.GConfigKey
